@@ -32,7 +32,8 @@ from ..engine import EventLog, Outcome, bump, h64, violation
 PID = "C17"
 RULE = (
     "Each run is one call of SupervisedOPF.learn (arms learn_adv: scheduler-chosen swap indices; learn_uni: ordinary"
-    " uniform draws), SupervisedOPF.prune, or fit + 1-3 prediction passes (arm relevance) on a seeded world"
+    " uniform draws), SupervisedOPF.prune, fit + 1-3 prediction passes (arm relevance), or 2-4 calls out of fit / fit on"
+    " other data / predict / learn / prune on one model object (arm seq), on a seeded world"
     " (n_train 3-10, n_val 2-8, d 1-3, 2-3 classes all present in both sets, styles generic/lattice/dups/positive,"
     " symmetric metrics, n_iterations 1-6). Non-trivial: learn - >= 1 swap happened and >= 2 iterations ran;"
     " prune - >= 1 row was discarded; relevance - the flagged set is neither empty nor everything. distinct ="
